@@ -53,6 +53,12 @@ var propMeta = map[string]propInfo{
 	"C11": {Pkg: "agent", Level: "exploration", QuickRuns: 2500, QuickBudgetS: 40,
 		Rule:  "one evaluation = one concurrent history: 2-6 clients, <= 34 calls on 1-3 users (every written password unique), through the agent interface and the sasl / LDAP / basic-auth / API frontends, upgrades off or local, dispatcher slowness 1-15; followed on the idle agent by a sequential read-out (every user x every password of the run, list, check) appended to the same history; invoke/return stamps are scheduler step numbers; porcupine decides linearizability against the sequential store model (Unknown = inconclusive, never reported); distinct non-trivial = distinct pick sequences of histories with >= 1 pair of overlapping calls on one user of which at least one is a write",
 		Real:  realA, Stub: stubsA, Assumptions: append([]string{"an internal hash upgrade is invisible to the sequential model (same password, same admin flag)", "porcupine v1.3.0 is the linearizability checker (trusted)"}, assumeA...), Technique: "deterministic simulation (seeded schedules) + porcupine linearizability check of the recorded history"},
+	"C12": {Pkg: "agent", Level: "exploration", QuickRuns: 2500, QuickBudgetS: 40,
+		Rule:  "one evaluation = one login on an otherwise idle agent: stores mixing reference-written records of 2-3 parameter sets (both algorithms, any default), passwords straddling an optional zxcvbn policy, 3-12 logins per run with right and wrong passwords through all five frontends, upgrade mode off / local / remote (replica + master agent in one bubble; master delivering, refusing, stalled; optional sync back), clock steps between logins; after each login a drain, then byte-exact snapshot diff, simfs mutation counter and reference re-verification of any rewritten record; distinct non-trivial = distinct (mode, frontend, right/wrong, record set, default, policy) cells",
+		Real:  realA, Stub: stubsA, Assumptions: append([]string{"zxcvbn-go is the trusted base for the policy verdict"}, assumeA...)},
+	"C19": {Pkg: "agent", Level: "exploration", QuickRuns: 3000, QuickBudgetS: 40,
+		Rule:  "one evaluation = one agent run with a generated hooks directory (1-5 entries: regular / symlink / directory / fifo, hidden names, ten permission patterns, directory modes incl. world-writable), hook behaviours fast / failing / hanging / unstartable, 1-3 clients issuing successful and failing management calls, clock steps of 1 ns .. 61 s incl. 5 s -/+ 1 ns around the rate-limit timer, optional config rewrite + SIGHUP to another base directory; the simexec start log (step, fake time, argv, env) is judged by the obligation tracker; distinct non-trivial = distinct (pick sequence, directory content, #changes, #rounds)",
+		Real:  realA, Stub: stubsA, Assumptions: append([]string{"5 s rate limit and 1 min hook time limit are the documented values (man page)", "symlinks have mode 0777 as on Linux"}, assumeA...)},
 	"C08": {Pkg: "store", Level: "fault_enumeration", QuickRuns: 400, QuickBudgetS: 40,
 		Rule:  "one evaluation = one crash point: for a generated scenario (store with 1-4 reference-written users, aux data of every shape, one init/add/update) EVERY simfs operation boundary of the call and three prefixes inside every write is a crash point; at each, the process-kill image and the power-loss images (all of them when <= limit, else DFS prefix + sampled) are opened with a fresh store and judged by the recovery oracle; distinct non-trivial = distinct (configuration, operation, population, aux size) scenarios swept",
 		Real:  realL, Stub: stubsL, Assumptions: assumeL},
